@@ -13,7 +13,20 @@ type Loop struct {
 }
 
 // Loops returns the natural loops of fn (loops sharing a header are merged).
+var loopCache = map[*ssa.Function][]*Loop{}
+
+// Loops returns the natural loops of fn (loops sharing a header are merged). The result is
+// cached, so *Loop pointers are stable per function.
 func Loops(fn *ssa.Function) []*Loop {
+	if l, ok := loopCache[fn]; ok {
+		return l
+	}
+	l := computeLoops(fn)
+	loopCache[fn] = l
+	return l
+}
+
+func computeLoops(fn *ssa.Function) []*Loop {
 	byHeader := map[*ssa.BasicBlock]*Loop{}
 	var order []*ssa.BasicBlock
 	for _, b := range fn.Blocks {
